@@ -1,6 +1,9 @@
 use serde::Deserialize;
 use std::{collections::BTreeMap, fmt::Display};
 
+// Number of parameters of the dynamic layout.
+pub const N_DYNAMIC_PARAMS: usize = 340;
+
 // For now only the recursive and starknet layouts is supported
 #[derive(Debug, Clone, PartialEq, Deserialize)]
 #[serde(rename_all = "snake_case")]
